@@ -144,6 +144,27 @@ var c21SelfTests = []SelfTest{
 	{Name: "rewrite: insertion guarded by len()", Edits: []Edit{
 		{File: "internal/agent/agent.go", Old: "\t\t} else if u.Password != \"\" {\n\t\t\t// Fall back to plaintext password (deprecated)\n\t\t\tusers[u.Username] = u.Password\n", New: "\t\t} else if len(u.Password) > 0 {\n\t\t\t// Fall back to plaintext password (deprecated)\n\t\t\tusers[u.Username] = u.Password\n"},
 	}},
+	{Name: "rewrite: handler selected as a method value after authentication", Edits: []Edit{
+		{File: "internal/socks5/handler.go", Old: "\tswitch req.Command {\n\tcase CmdConnect:\n\t\treturn h.handleConnect(conn, req)\n\tcase CmdUDPAssociate:\n\t\treturn h.handleUDPAssociate(conn, req)\n\tcase CmdICMPEcho:\n\t\treturn h.handleICMPEcho(conn, req)\n\tdefault:\n\t\th.sendReply(conn, ReplyCmdNotSupported, nil, 0)\n\t\treturn fmt.Errorf(\"unsupported command: %d\", req.Command)\n\t}\n}\n", New: "\tvar serve func(net.Conn, *Request) error\n\tswitch req.Command {\n\tcase CmdICMPEcho:\n\t\tserve = h.handleICMPEcho\n\tcase CmdUDPAssociate:\n\t\tserve = h.handleUDPAssociate\n\tcase CmdConnect:\n\t\tserve = h.handleConnect\n\t}\n\tif serve == nil {\n\t\th.sendReply(conn, ReplyCmdNotSupported, nil, 0)\n\t\treturn fmt.Errorf(\"unsupported command: %d\", req.Command)\n\t}\n\treturn serve(conn, req)\n}\n"},
+	}},
+	{Name: "rewrite: dial moved into a helper called by the CONNECT handler", Edits: []Edit{
+		{File: "internal/socks5/handler.go", Old: "\ttarget, err := h.dialer.DialContext(ctx, \"tcp\", targetAddr)\n", New: "\ttarget, err := h.dialTo(ctx, targetAddr)\n"},
+		{File: "internal/socks5/handler.go", Old: "// handleConnect handles CONNECT commands.\n", New: "func (h *Handler) dialTo(ctx context.Context, address string) (net.Conn, error) {\n\treturn h.dialer.DialContext(ctx, \"tcp\", address)\n}\n\n// handleConnect handles CONNECT commands.\n"},
+	}},
+	{Name: "websocket listener takes the CONNECT handler as a method value and calls it", ExpectRule: "C21.R1", Edits: []Edit{
+		{File: "internal/socks5/ws_listener.go", Old: "\tl.handler.Handle(wc)\n", New: "\tserve := l.handler.handleConnect\n\tif req, err := l.handler.readRequest(wc); err == nil {\n\t\tserve(wc, req)\n\t}\n"},
+	}},
+	{Name: "handler table built before authentication and used without it", ExpectRule: "C21.R1", Edits: []Edit{
+		{File: "internal/socks5/handler.go", Old: "\t_, err := h.authenticate(conn)\n\tif err != nil {\n\t\treturn fmt.Errorf(\"authentication: %w\", err)\n\t}\n", New: "\tfast := map[byte]func(net.Conn, *Request) error{CmdConnect: h.handleConnect}\n\t_, err := h.authenticate(conn)\n\tif err != nil {\n\t\tif req, rerr := h.readRequest(conn); rerr == nil && fast[req.Command] != nil {\n\t\t\treturn fast[req.Command](conn, req)\n\t\t}\n\t\treturn fmt.Errorf(\"authentication: %w\", err)\n\t}\n"},
+	}},
+	{Name: "rewrite: table-driven dispatch (map from command to method value)", Edits: []Edit{
+		{File: "internal/socks5/handler.go", Old: "\tswitch req.Command {\n\tcase CmdConnect:\n\t\treturn h.handleConnect(conn, req)\n\tcase CmdUDPAssociate:\n\t\treturn h.handleUDPAssociate(conn, req)\n\tcase CmdICMPEcho:\n\t\treturn h.handleICMPEcho(conn, req)\n\tdefault:\n\t\th.sendReply(conn, ReplyCmdNotSupported, nil, 0)\n\t\treturn fmt.Errorf(\"unsupported command: %d\", req.Command)\n\t}\n}\n", New: "\thandlers := map[byte]func(net.Conn, *Request) error{\n\t\tCmdConnect:      h.handleConnect,\n\t\tCmdUDPAssociate: h.handleUDPAssociate,\n\t\tCmdICMPEcho:     h.handleICMPEcho,\n\t}\n\tserve, ok := handlers[req.Command]\n\tif !ok {\n\t\th.sendReply(conn, ReplyCmdNotSupported, nil, 0)\n\t\treturn fmt.Errorf(\"unsupported command: %d\", req.Command)\n\t}\n\treturn serve(conn, req)\n}\n"},
+	}},
+	{Name: "rewrite: command handlers registered in a table by the constructor", Edits: []Edit{
+		{File: "internal/socks5/handler.go", Old: "\tswitch req.Command {\n\tcase CmdConnect:\n\t\treturn h.handleConnect(conn, req)\n\tcase CmdUDPAssociate:\n\t\treturn h.handleUDPAssociate(conn, req)\n\tcase CmdICMPEcho:\n\t\treturn h.handleICMPEcho(conn, req)\n\tdefault:\n\t\th.sendReply(conn, ReplyCmdNotSupported, nil, 0)\n\t\treturn fmt.Errorf(\"unsupported command: %d\", req.Command)\n\t}\n}\n", New: "\tserve, ok := h.commands[req.Command]\n\tif !ok {\n\t\th.sendReply(conn, ReplyCmdNotSupported, nil, 0)\n\t\treturn fmt.Errorf(\"unsupported command: %d\", req.Command)\n\t}\n\treturn serve(conn, req)\n}\n"},
+		{File: "internal/socks5/handler.go", Old: "\tauthenticators []Authenticator\n\tdialer         Dialer\n", New: "\tauthenticators []Authenticator\n\tdialer         Dialer\n\tcommands       map[byte]func(net.Conn, *Request) error\n"},
+		{File: "internal/socks5/handler.go", Old: "\treturn &Handler{\n\t\tauthenticators:   auths,\n\t\tdialer:           dialer,\n\t\tudpAssociations:  make(map[uint64]*UDPAssociation),\n\t\ticmpAssociations: make(map[uint64]*ICMPAssociation),\n\t}\n", New: "\th := &Handler{\n\t\tauthenticators:   auths,\n\t\tdialer:           dialer,\n\t\tudpAssociations:  make(map[uint64]*UDPAssociation),\n\t\ticmpAssociations: make(map[uint64]*ICMPAssociation),\n\t}\n\th.commands = map[byte]func(net.Conn, *Request) error{\n\t\tCmdConnect:      h.handleConnect,\n\t\tCmdUDPAssociate: h.handleUDPAssociate,\n\t\tCmdICMPEcho:     h.handleICMPEcho,\n\t}\n\treturn h\n"},
+	}},
 	{Name: "rewrite: agent builds the list itself, server relies on NewHandler's default", Edits: []Edit{
 		{File: "internal/agent/agent.go", Old: "\treturn socks5.CreateAuthenticators(socks5.AuthConfig{\n\t\tEnabled:     true,\n\t\tRequired:    true,\n\t\tUsers:       users,\n\t\tHashedUsers: hashedUsers,\n\t})\n", New: "\tvar creds socks5.CredentialStore = socks5.StaticCredentials(users)\n\tif len(hashedUsers) > 0 {\n\t\tcreds = socks5.HashedCredentials(hashedUsers)\n\t}\n\tauths := make([]socks5.Authenticator, 0, 1)\n\tauths = append(auths, socks5.NewUserPassAuthenticator(creds))\n\treturn auths\n"},
 		{File: "internal/socks5/server.go", Old: "\tif len(cfg.Authenticators) == 0 {\n\t\tcfg.Authenticators = []Authenticator{&NoAuthAuthenticator{}}\n\t}\n", New: ""},
@@ -361,7 +382,7 @@ func (cx *c21cx) protectedSite(top *ssa.Function, site ssa.Instruction, visiting
 	}
 	visiting[top] = true
 	defer delete(visiting, top)
-	callers := cx.p.StaticCallers(top)
+	callers := cx.callSites(top)
 	if len(callers) == 0 {
 		return false, kit.FuncName(top) + " (an entry: no static caller)"
 	}
@@ -372,6 +393,128 @@ func (cx *c21cx) protectedSite(top *ssa.Function, site ssa.Instruction, visiting
 		}
 	}
 	return true, ""
+}
+
+// callSites: the static call sites of fn plus the places where fn is taken as a value (method
+// value, handler table): the function cannot run before such a reference is evaluated, so the
+// reference is judged like a call.
+func (cx *c21cx) callSites(fn *ssa.Function) []ssa.Instruction {
+	var out []ssa.Instruction
+	for _, c := range cx.p.StaticCallers(fn) {
+		out = append(out, c)
+	}
+	for _, ref := range cx.p.G7ValueRefs(fn) {
+		// a reference that registers the function in a table kept in a struct field (handlers
+		// built by the constructor) runs where that field is looked up and called
+		if f := c21RegisteredIn(ref, fn); f != nil {
+			if calls := cx.dynamicCallsVia(f); len(calls) > 0 {
+				out = append(out, calls...)
+				continue
+			}
+		}
+		out = append(out, ref)
+	}
+	return out
+}
+
+// c21RegisteredIn: the function value created/used by instruction ref ends up (directly or as
+// an entry of a map) in a struct field; returns that field.
+func c21RegisteredIn(ref ssa.Instruction, fn *ssa.Function) *types.Var {
+	var start []ssa.Value
+	if v, ok := ref.(ssa.Value); ok {
+		start = append(start, v) // MakeClosure of the bound method
+	}
+	switch x := ref.(type) {
+	case *ssa.MapUpdate:
+		start = append(start, x.Map)
+	case *ssa.Store:
+		if fa, ok := x.Addr.(*ssa.FieldAddr); ok {
+			return kit.FieldOfAddr(fa)
+		}
+	}
+	seen := map[ssa.Value]bool{}
+	for len(start) > 0 {
+		v := start[0]
+		start = start[1:]
+		if v == nil || seen[v] || v.Referrers() == nil {
+			continue
+		}
+		seen[v] = true
+		for _, r := range *v.Referrers() {
+			switch x := r.(type) {
+			case *ssa.MapUpdate:
+				if x.Value == v {
+					start = append(start, x.Map)
+				}
+			case *ssa.Store:
+				if x.Val == v {
+					if fa, ok := x.Addr.(*ssa.FieldAddr); ok {
+						return kit.FieldOfAddr(fa)
+					}
+				}
+			case *ssa.MakeInterface:
+				start = append(start, x)
+			case *ssa.ChangeType:
+				start = append(start, x)
+			case *ssa.Phi:
+				start = append(start, x)
+			}
+		}
+	}
+	return nil
+}
+
+// dynamicCallsVia: the calls of function values obtained from field f (element of the map / slice
+// held there, or the field itself).
+func (cx *c21cx) dynamicCallsVia(f *types.Var) []ssa.Instruction {
+	var out []ssa.Instruction
+	var from func(v ssa.Value, d int) bool
+	from = func(v ssa.Value, d int) bool {
+		if v == nil || d > 6 {
+			return false
+		}
+		if lf, _ := kit.LoadedField(v); lf == f {
+			return true
+		}
+		switch x := v.(type) {
+		case *ssa.Extract:
+			return from(x.Tuple, d+1)
+		case *ssa.Lookup:
+			return from(x.X, d+1)
+		case *ssa.Index:
+			return from(x.X, d+1)
+		case *ssa.UnOp:
+			if ia, ok := x.X.(*ssa.IndexAddr); ok {
+				return from(ia.X, d+1)
+			}
+		case *ssa.Phi:
+			for _, e := range x.Edges {
+				if from(e, d+1) {
+					return true
+				}
+			}
+		case *ssa.TypeAssert:
+			return from(x.X, d+1)
+		case *ssa.ChangeType:
+			return from(x.X, d+1)
+		}
+		return false
+	}
+	for _, fn := range cx.p.RepoFuncs() {
+		for _, c := range kit.Calls(fn) {
+			cc := c.Common()
+			if cc.IsInvoke() || cc.StaticCallee() != nil {
+				continue
+			}
+			if _, isBuiltin := cc.Value.(*ssa.Builtin); isBuiltin {
+				continue
+			}
+			if from(cc.Value, 0) {
+				out = append(out, c)
+			}
+		}
+	}
+	return out
 }
 
 func runC21(p *kit.Program, r *kit.Report) {
@@ -432,7 +575,7 @@ func (cx *c21cx) ruleR1() {
 		}
 	}
 	r.Count("command_executor_functions", len(execs))
-	if !r.Require(len(execs) >= 3, "floor: fewer than 3 functions invoke Dialer/UDPAssociationHandler/ICMPHandler command methods (found %d)", len(execs)) {
+	if !r.Require(len(execs) >= 1, "floor: no function invokes a Dialer/UDPAssociationHandler/ICMPHandler command method") {
 		return
 	}
 	nAuthFns := 0
@@ -449,7 +592,7 @@ func (cx *c21cx) ruleR1() {
 	sort.Slice(fns, func(i, j int) bool { return kit.FuncName(fns[i]) < kit.FuncName(fns[j]) })
 	nSites := 0
 	for _, ex := range fns {
-		callers := p.StaticCallers(ex)
+		callers := cx.callSites(ex)
 		if len(callers) == 0 {
 			r.Violation("C21.R1", "entry "+kit.FuncName(ex), p.Pos(ex.Pos()),
 				"%s executes %s and is an entry of its own (no static caller): nothing authenticates the client before the command runs", kit.FuncName(ex), strings.Join(execs[ex], ","))
